@@ -1,27 +1,8 @@
 """Attribution of C11 failures to entries of known_findings.json.
 
-F8 — `utils/statistics.py:raw_moments_to_centrals` initialises `centrals = {1: moments[1]}`: the
-"first central moment" it returns is the mean, whereas E(X − E X) = 0.  The signature is exact:
-the failing observation is a central moment of order exactly 1, the value the code returned equals
-the first raw moment of the same law, and the true value is 0.  Anything else about central moments
-(another order, or an order-1 value different from the mean) is not excused."""
+(F8 — `raw_moments_to_centrals` returning the mean as first central moment — was repaired in /repo
+commit d65f6a5 and has no attribution any more: a recurrence is a violation.)"""
 from fractions import Fraction as Fr
-
-
-def f8(prop, record):
-    if prop != "C11":
-        return None
-    if record.get("kind") != "central" or int(record.get("order", 0)) != 1:
-        return None
-    try:
-        code = Fr(record["code"])
-        spec = Fr(record["spec"])
-        mean = Fr(record["mean"])
-    except Exception:
-        return None
-    if spec == 0 and code == mean and mean != 0:
-        return "c1(.) / raw_moments_to_centrals(...)[1] is the mean E(X) instead of the first central moment 0"
-    return None
 
 
 def degenerate_lower(prop, record):
